@@ -302,19 +302,23 @@ func runHostile(c HostileCase) (msg string, reached bool) {
 			return fmt.Sprintf("body of %s changed:\n got  %s\n want %s\n--- Go source ---\n%s\n--- emitted ---\n%s", name, got.bodies[name], want.bodies[name], hostSrc, ht.Text), true
 		}
 	}
-	wantComments := want.comments
+	// A comment whose text is blank is (legitimately) not emitted at all; what counts as blank is
+	// goose's business (go/ast strips some white space, goose trims other), so a sink holding only
+	// white space may or may not produce a comment: both counts are accepted.
+	maxComments := want.comments
+	minComments := want.comments
 	for _, k := range []string{"pkgdoc", "typedoc", "constcomment", "funcdoc", "funcdoc2", "blockdoc"} {
-		// a comment whose text is blank is (legitimately) not emitted at all
-		if strings.TrimSpace(c.Sinks[k]) == "" {
-			wantComments--
+		switch {
+		case c.Sinks[k] == "" || strings.Trim(c.Sinks[k], " \n") == "":
+			maxComments--
+			minComments--
+		case strings.TrimSpace(c.Sinks[k]) == "":
+			minComments--
 		}
 	}
-	if rejected["f"] {
-		// the doc comment and the three logging comments of f vanish with it
-		wantComments = -1
-	}
-	if wantComments >= 0 && got.comments != wantComments {
-		return fmt.Sprintf("number of comments changed: got %d, want %d (text escaped a comment or merged two)\n--- Go source ---\n%s\n--- emitted ---\n%s", got.comments, wantComments, hostSrc, ht.Text), true
+	// (if f was rejected, its doc comment and its three logging comments vanish with it: no count check)
+	if !rejected["f"] && (got.comments < minComments || got.comments > maxComments) {
+		return fmt.Sprintf("number of comments changed: got %d, want %d..%d (text escaped a comment or merged two)\n--- Go source ---\n%s\n--- emitted ---\n%s", got.comments, minComments, maxComments, hostSrc, ht.Text), true
 	}
 	if !rejected["f"] {
 		wantStrs := []string{c.Sinks["strlit"], c.Sinks["strlit2"]}
